@@ -135,6 +135,10 @@ fn main() {
             let f = stepcheck::steps_stage(&c);
             c.finish(f);
         }
+        "steps-gen" => {
+            let f = stepcheck::steps_generic(&c);
+            c.finish(f);
+        }
         "steps-exh" => {
             let f = stepcheck::steps_exhaustive(&c);
             c.finish(f);
